@@ -76,6 +76,23 @@ def blocking_throttle_tasks(rng, quick):
     return tasks
 
 
+def late_shutdown_tasks(rng, quick):
+    """shutdown(wait=False) by the main client while a future is being completed; a done-callback of that future -
+    running on the executor's own worker thread where there is one - then calls shutdown(wait=True) again."""
+    tasks = []
+    for ly in ({"t": "poll", "mode": "first"}, {"t": "retry", "max": 2, "sleep": 100}, {"t": "throttle", "count": 1},
+               {"t": "timeout", "T": 5000}, {"t": "map", "fn": "tag"}, {"t": "cos"}):
+        for base in ("pool", "sync"):
+            pp = {"base": base, "workers": 1, "layers": [dict(ly)],
+                  "subs": [{"S": 0, "script": ["V"], "dur": 50, "thread": 0, "cb_shutdown": True}],
+                  "shutdown": {"at": 100, "wait": False, "repeat": 1, "threads": 1, "cancel_futures": None}, "horizon": 20000}
+            for k in range(2 if quick else 10):
+                tasks.append({"scen": "stack", "params": pp, "strat": ["random", rng.randrange(10 ** 9), 0.5],
+                              "gran": "line" if k % 2 else "sync",
+                              "facts": {"base": base, "types": [ly["t"]], "block": False, "directed": True}})
+    return tasks
+
+
 def run(ck):
     quick = ck.tier == "quick"
     rng = random.Random(ck.seed)
@@ -90,7 +107,7 @@ def run(ck):
                       "facts": {"base": p["base"], "types": sorted(set(l["t"] for l in p["layers"])),
                                 "block": any(l.get("block") for l in p["layers"])}})
     ck.run_and_validate(tasks, TRACE)
-    swept = directed_shutdown_tasks(quick) + blocking_throttle_tasks(rng, quick)
+    swept = directed_shutdown_tasks(quick) + blocking_throttle_tasks(rng, quick) + late_shutdown_tasks(rng, quick)
     ck.run_and_validate(swept, TRACE, nontrivial=lambda t, r: True)
     if not quick:
         # the repository's own test suite (real threads, real time) recorded through class-level wrappers and validated
